@@ -8,7 +8,8 @@ Grammar (exactly what occurs at the extraction points; anything else raises):
   land   := eq ('&&' eq)*
   eq     := rel (('=='|'!=') rel)*
   rel    := bor (('<='|'>='|'<'|'>') bor)*
-  bor    := unary ('|' unary)*
+  bor    := band ('|' band)*
+  band   := unary ('&' unary)*
   unary  := '!' unary | '-' unary | '*' unary | '(' TYPE ')' unary | 'sizeof' '(' TYPE ')' | postfix
   postfix:= primary ('(' args ')')?
   primary:= NUMBER[suffix] | IDENT | '(' cond (',' cond)* ')'
@@ -21,7 +22,7 @@ TYPES = {
     "unsigned long": "cULong", "long": "cLong",
 }
 
-TOK = re.compile(r"\s*(?:(\d+)([uUlL]*)|([A-Za-z_]\w*)|(\|\||&&|==|!=|<=|>=|[-!*()?:,<>|#])|(\"[^\"]*\"))")
+TOK = re.compile(r"\s*(?:(0[xX][0-9a-fA-F]+|\d+)([uUlL]*)|([A-Za-z_]\w*)|(\|\||&&|==|!=|<=|>=|[-!*()?:,<>|#&])|(\"[^\"]*\"))")
 
 
 class ParseError(Exception):
@@ -36,7 +37,7 @@ def tokenize(s):
         if not m:
             raise ParseError("cannot tokenize %r at %d" % (s, pos))
         if m.group(1) is not None:
-            out.append(("num", int(m.group(1)), m.group(2).upper()))
+            out.append(("num", int(m.group(1), 0), m.group(2).upper()))
         elif m.group(3) is not None:
             out.append(("id", m.group(3)))
         elif m.group(4) is not None:
@@ -120,7 +121,10 @@ class Parser:
         return self._bin(self.bor, ("<=", ">=", "<", ">"))
 
     def bor(self):
-        return self._bin(self.unary, ("|",))
+        return self._bin(self.band, ("|",))
+
+    def band(self):
+        return self._bin(self.unary, ("&",))
 
     def unary(self):
         if self.is_op("!"):
@@ -235,6 +239,23 @@ def lean_value(e, env):
             return args[0]
         return "(%s %s)" % (fn, " ".join(args))
     raise ParseError("cannot translate node %r" % (k,))
+
+
+def lean_nat(e, env):
+    """Lean `Nat` term for a flag expression (literals, identifiers, `&`, `|`, `?:`); conditions are
+    "non-zero" tests.  Used for the `sflags` assembly of do_realize_lazy_struct."""
+    k = e[0]
+    if k == "num":
+        return "(%d : Nat)" % e[1]
+    if k == "var":
+        if e[1] not in env:
+            raise ParseError("free identifier %r" % e[1])
+        return env[e[1]]
+    if k == "bin" and e[1] in ("&", "|"):
+        return "(%s %s %s)" % (lean_nat(e[2], env), "&&&" if e[1] == "&" else "|||", lean_nat(e[3], env))
+    if k == "ite":
+        return "(if %s ≠ 0 then %s else %s)" % (lean_nat(e[1], env), lean_nat(e[2], env), lean_nat(e[3], env))
+    raise ParseError("cannot translate node %r as a flag expression" % (k,))
 
 
 def normalise_c(text):
